@@ -406,6 +406,34 @@ func c11Run(ci interface{}, r *core.Rec) {
 				}
 			}
 		}
+		// inner dimensions around the byte / power-of-two boundaries: dense operands (no zero entry), operands with
+		// one zero per row, and an identity-like left operand; 2 x k times k x 3
+		for _, kk := range []int{15, 16, 17, 31, 32, 33, 63, 64, 65, 127, 128, 129, 255, 256, 257, 300, 511, 512, 513} {
+			for variant := 0; variant < 3; variant++ {
+				a := lin.New(2, kk)
+				b := lin.New(kk, 3)
+				for i := range a {
+					for j := range a[i] {
+						a[i][j] = gf16.Exp2(i*977 + j*3 + variant)
+						if variant == 1 && j == (i*5+kk/2)%kk {
+							a[i][j] = 0
+						}
+						if variant == 2 && j != (i+kk-1)%kk {
+							a[i][j] = 0
+						}
+					}
+				}
+				for i := range b {
+					for j := range b[i] {
+						b[i][j] = gf16.Exp2(i*11 + j*4099 + 1)
+					}
+				}
+				c11CheckTimes(r, a, b)
+				// and the transposed shapes: 3 x k result columns become rows (k x 2 left operand of a wide product)
+				c11CheckTimes(r, lin.Transpose(b), lin.Transpose(a))
+				cnt += 2
+			}
+		}
 		r.AddStates(cnt)
 		r.Outcome("times")
 		r.NontrivialCase()
